@@ -285,6 +285,14 @@ def removeFirst : List (Data Rat) → Data Rat → Except Err (List (Data Rat))
       | .ok r => .ok (c :: r)
       | .error e => .error e
 
+/-- `mfd.count(item)`: how many components `c` have `c == item`. -/
+def countEq (cs : List (Data Rat)) (x : Data Rat) : Nat := (cs.filter fun c => eq c x).length
+
+/-- `mfd.index(item)`: position of the first component `c` with `c == item` (`none` = `ValueError`). -/
+def indexOf : List (Data Rat) → Data Rat → Option Nat
+  | [], _ => none
+  | c :: cs, x => if eq c x then some 0 else (indexOf cs x).map (· + 1)
+
 /-! ### Closeness on non-finite values (`np.allclose(…, equal_nan=True)` as `__eq__` calls it) -/
 
 /-- A `float64` entry: finite (its exact rational value), NaN, +∞ or −∞. -/
